@@ -1,10 +1,10 @@
 package main
 
 import (
-	"sync"
 	"fmt"
 	"reflect"
 	"strings"
+	"sync"
 
 	"go.pennock.tech/tabular"
 	"go.pennock.tech/tabular/properties"
@@ -58,7 +58,10 @@ func keyValue(name string) interface{} {
 	return nil
 }
 
-var valNames = []string{"v1", "v2", "v3", "vtrue", "vfalse", "vL", "vR", "vC", "vbad"}
+var valNames = []string{"v1", "v2", "v3", "vtrue", "vfalse", "vL", "vR", "vC", "vbad", "vq1", "vq2"}
+
+// two distinct objects with equal contents: "the value most recently set" is told apart by identity only
+var valQ1, valQ2 = &plainStruct{7, "q"}, &plainStruct{7, "q"}
 
 func valValue(name string) interface{} {
 	switch name {
@@ -82,6 +85,10 @@ func valValue(name string) interface{} {
 		return align.Center
 	case "vbad":
 		return "not-a-bool"
+	case "vq1":
+		return valQ1
+	case "vq2":
+		return valQ2
 	}
 	derr("unknown value %q", name)
 	return nil
@@ -321,7 +328,14 @@ func (w *world) execMore(op M) bool {
 		// change the payload of the pointer item stored in a cell
 		c := w.owner(opMap(op, "cell")).(*tabular.Cell)
 		d := opMap(op, "item")
-		if !setPayload(c.Item(), payloadOf(d)) {
+		if vs, ok := c.Item().(valSlice); ok {
+			// the struct value in the cell shares its slice with the outside: overwrite the elements in place
+			nw := strings.Split(strings.TrimPrefix(opStr(d, "which"), "valslice:"), ",")
+			if len(nw) != len(vs.Tags) {
+				derr("mutate: valslice of another length")
+			}
+			copy(vs.Tags, nw)
+		} else if !setPayload(c.Item(), payloadOf(d)) {
 			derr("mutate: item %T is not a generated object", c.Item())
 		}
 		augmentItem(d, c.Item())
